@@ -90,14 +90,25 @@ func (t *Transaction) Transact(operations ...ovsdb.Operation) ([]*ovsdb.Operatio
 		case ovsdb.OperationWait:
 			r = t.Wait(op.Table, op.Timeout, op.Where, op.Columns, op.Until, op.Rows)
 		case ovsdb.OperationCommit:
-			durable := op.Durable
-			r = t.Commit(*durable)
+			if op.Durable == nil {
+				r = ovsdb.ResultFromError(fmt.Errorf("commit: missing durable"))
+			} else {
+				r = t.Commit(*op.Durable)
+			}
 		case ovsdb.OperationAbort:
 			r = t.Abort()
 		case ovsdb.OperationComment:
-			r = t.Comment(*op.Comment)
+			if op.Comment == nil {
+				r = ovsdb.ResultFromError(fmt.Errorf("comment: missing comment"))
+			} else {
+				r = t.Comment(*op.Comment)
+			}
 		case ovsdb.OperationAssert:
-			r = t.Assert(*op.Lock)
+			if op.Lock == nil {
+				r = ovsdb.ResultFromError(fmt.Errorf("assert: missing lock"))
+			} else {
+				r = t.Assert(*op.Lock)
+			}
 		default:
 			r = ovsdb.ResultFromError(&ovsdb.NotSupported{})
 		}
